@@ -15,12 +15,12 @@ RULE = ("texts = exhaustive token strings of length <=2 over the full token alph
         "(space-, newline- and nothing-separated), length 3 over a reduced alphabet (thorough), "
         "random token strings 4..12, grammar-derived programs with every token prefix, every "
         "single-token deletion and sampled insertions/substitutions, character noise and "
-        "character-level edits, bracket nesting <= 40; a case is one distinct source text with "
+        "character-level edits, bracket nesting of 14 kinds to depth 40 in every depth and up to 3000 in steps, "
+        "single tokens and flat sequences up to 20000 characters; a case is one distinct source text with "
         ">= 1 token character (distinct_nontrivial counts distinct texts by hash)")
 ASSUMPTIONS = [
     "termination is decided on a logical clock (function entries + backward jumps), "
     "budget 20000 + 3000 per source character; wall clock is only a watchdog",
-    "nesting deeper than 40 is out of scope (host recursion limit)",
     "error messages and columns are not compared; only class, file name, line, node digest",
 ]
 FNAME = "c01.ckl"
@@ -94,6 +94,9 @@ def check_text(ctx, text, deep=True):
         ctx.maxstat("max_steps_per_budget_permille", int(1000 * o.steps / budget))
     summary = None
     if o.kind == "value":
+        if not callable(getattr(o.value, "evaluate", None)):
+            ctx.violation("C01:no-program:%s" % type(o.value).__name__,
+                          "parse of %r returned %r, which is neither a program nor a syntax error" % (text, o.value), {"text": text})
         try:
             summary = ("program", node_digest(o.value))
         except BaseException as e:  # noqa
@@ -235,6 +238,21 @@ def run_shard(spec, ctx):
                 check_text(ctx, o * d, deep=False)
             mix = [r.choice(opens) for _ in range(d)]
             check_text(ctx, "".join(o for o, c in mix) + "1" + "".join(c for o, c in reversed(mix)))
+        # far beyond what the host's call stack carries: still a program or a syntax error
+        for d in (45, 50, 60, 70, 80, 85, 90, 100, 120, 150, 200, 300, 500, 1000, 3000):
+            for o, c in opens:
+                check_text(ctx, o * d + "1" + c * d, deep=False)
+                check_text(ctx, o * d, deep=False)
+            mix = [r.choice(opens) for _ in range(d)]
+            check_text(ctx, "".join(o for o, c in mix) + "1" + "".join(c for o, c in reversed(mix)), deep=False)
+            ctx.count("deep_nesting_texts", 2 * len(opens) + 1)
+        # very long single tokens
+        for n in (100, 1000, 4299, 4300, 4301, 5000, 20000):
+            for text in ("9" * n, "1" + "0" * n, "0x" + "f" * n, "0b" + "1" * n, "1_" * n + "1", "0." + "3" * n, "9" * n + ".5",
+                         "x" * n, "'" + "a" * n + "'", "//" + "a" * n + "//", "-" + "9" * n, "def v = " + "7" * n + "; v", "1 " + "+ 1 " * n,
+                         "#" + "c" * n + "\n1", "'" + "\\x41" * n + "'", " " * n + "1", "\n" * n + "1", "[" + "1, " * n + "1]", ";" * n):
+                check_text(ctx, text, deep=False)
+                ctx.count("long_token_texts")
     elif kind == "xproc":
         # same seeded batch in every xproc shard (rng independent of shard index)
         rr = core.make_rng(ctx.seed, "C01-xproc", 0)
